@@ -383,12 +383,14 @@ impl World {
             let c = i.clock;
             let obj = i.ops[op].obj;
             let kind = i.ops[op].kind;
+            let dead_now = i.objs[obj].dead;
             {
                 let o = &mut i.ops[op];
                 o.runs += 1;
                 o.start = c;
                 o.runner_task = task;
-                o.seen = p.log.len() as u32;
+                // (the payload is not touched if its value has been destroyed: `p` dangles then)
+                o.seen = if dead_now { 0 } else { p.log.len() as u32 };
             }
             let o = i.ops[op].clone();
             let ob = &i.objs[obj];
@@ -406,7 +408,7 @@ impl World {
                 fail = Some(("C08", "ran-outside-poll", format!("future_sync operation #{} started although its future is not being polled", op)));
             } else if kind == Kind::FutSync && o.fut_dropped {
                 fail = Some(("C08", "ran-after-drop", format!("future_sync operation #{} started after its future was dropped", op)));
-            } else if p.log.len() as u32 != ob.log_len {
+            } else if !dead_now && p.log.len() as u32 != ob.log_len {
                 fail = Some(("C01", "log-mismatch", format!("o{}: protected log has {} entries, shadow has {}", obj, p.log.len(), ob.log_len)));
             }
             // (items of a pipe are scheduled by the pipe's poll job, whose position in the queue the harness cannot stamp)
@@ -464,6 +466,9 @@ impl World {
             });
             // an overlap / order violation is also a violation of the starting operation's own contract
             // (sync: "once the operations ahead of it have completed"; try_sync / future_sync / pipes: "exclusive, in-order access")
+            if p_ == "C05" && c == "use-after-destroy" {
+                self.note("C14", "value-used-after-free", Some(obj), Some(op), d.clone());
+            }
             if p_ == "C01" || p_ == "C02" {
                 let extra = match kind {
                     Kind::Sync => Some("C04"),
@@ -504,6 +509,9 @@ impl World {
         });
         if let Some((pr, c, d)) = bad {
             let obj = self.with(|i| i.ops[op].obj);
+            if c == "use-after-destroy" {
+                self.note("C14", "value-used-after-free", Some(obj), Some(op), d.clone());
+            }
             self.fail(pr, c, Some(obj), Some(op), d);
         }
         p.log.push(op as u32);
@@ -613,6 +621,17 @@ impl World {
         });
         self.hist(|| format!("DESTROY value of o{}", obj));
         if let Some((pr, c, d)) = bad {
+            if c == "double-destroy" {
+                self.note("C14", "value-freed-twice", Some(obj), None, d.clone());
+            }
+            if c == "destroyed-while-in-use" {
+                self.note("C14", "value-freed-while-borrowed", Some(obj), None, d.clone());
+            }
+            if c == "destroyed-before-work-finished" && self.case.cfg.keep_going_after_early_destroy {
+                // keep going: if the pending operation later runs on the freed value, the use-after-free oracle fires
+                self.note(pr, c, Some(obj), None, d);
+                return;
+            }
             self.fail(pr, c, Some(obj), None, d);
         }
     }
